@@ -158,10 +158,11 @@ from ._server import WBEMServer
 from ._cim_obj import CIMInstance, CIMInstanceName
 from ._cim_types import Uint16
 from ._cim_http import parse_url
-from ._cim_constants import CIM_ERR_FAILED, CIM_ERR_ALREADY_EXISTS
+from ._cim_constants import CIM_ERR_FAILED, CIM_ERR_ALREADY_EXISTS, \
+    DEFAULT_URL_SCHEME
 from ._exceptions import CIMError
 from ._warnings import OldNameFilterWarning, OldNameDestinationWarning
-from ._utils import _format
+from ._utils import _format, _ensure_unicode
 
 # CIM model classnames for subscription components
 SUBSCRIPTION_CLASSNAME = 'CIM_IndicationSubscription'
@@ -1378,7 +1379,11 @@ class WBEMSubscriptionManager:
         # Validate server_id
         server = self._get_server(server_id)
 
-        # Validate the URL by reconstructing it. Do not allow defaults
+        # Validate the URL by reconstructing it. The scheme is optional and
+        # defaults to http; the port is required.
+        dest_url = _ensure_unicode(dest_url)
+        if '://' not in dest_url:
+            dest_url = f'{DEFAULT_URL_SCHEME}://{dest_url}'
         _, _, listener_url = parse_url(dest_url, allow_defaults=False)
 
         interop_ns = server.interop_ns  # Determines the Interop namespace
